@@ -113,7 +113,7 @@ fn asm_elements(depth: u32) -> BoxedStrategy<Vec<El>> {
         2 => (digit_byte.clone(), digit_byte).prop_map(|(a, b)| El::Push(0, Bytes::Lit(vec![a, b]))),
     ];
     let el = leaf.prop_recursive(depth, 40, 5, |inner| {
-        (prop::sample::select(vec![99u8, 100, 101, 102]), prop::collection::vec(inner.clone(), 0..4), prop::option::of(prop::collection::vec(inner, 0..4))).prop_map(|(code, pass, fail)| El::If { code, pass, fail }).boxed()
+        (prop::sample::select(vec![99u8, 100, 101, 102]), prop::collection::vec(inner.clone(), 0..4), prop::option::of(prop::collection::vec(prop_oneof![12 => inner, 1 => Just(El::Op(0x67))], 0..4))).prop_map(|(code, pass, fail)| El::If { code, pass, fail }).boxed()
     });
     prop::collection::vec(el, 0..10).boxed()
 }
@@ -123,7 +123,7 @@ impl Property for C17 {
     const ID: &'static str = "C17";
 
     fn rule() -> String {
-        "Minimally-pushed scripts: every opcode of the table, pushes of every length class (1, 2, 75, 76, 255, 256, 65535, 65536, 65537) with arbitrary content, weighted toward 1- and 2-byte payloads whose hex is all digits, nested IF/NOTIF/VERIF/VERNOTIF..ELSE..ENDIF with empty and missing branches; nine whitespace variants of the rendering (double spaces, leading/trailing whitespace, newlines, tabs, CRLF, the indented multi-line style of the repository's tests, mixed); every opcode name and numeric alias; invalid tokens (odd-length hex, non-hex, unknown OP_ names). Oracle: from_asm_string(variant(to_asm_string(s))) must have the bytes of s; to_asm_string / to_extended_asm_string must equal the reference rendering of the reference token stream; names and aliases must map to their opcode; invalid tokens must be rejected. Non-trivial = an all-digit short push, a boundary-length push, a conditional with an empty or missing branch, or non-canonical whitespace; distinct by hash of the serialised case.".into()
+        "Minimally-pushed scripts: every opcode of the table, pushes of every length class (1, 2, 75, 76, 255, 256, 65535, 65536, 65537) with arbitrary content, weighted toward 1- and 2-byte payloads whose hex is all digits, nested IF/NOTIF/VERIF/VERNOTIF..ELSE..ENDIF with empty and missing branches and further OP_ELSE elements inside the else branch; nine whitespace variants of the rendering (double spaces, leading/trailing whitespace, newlines, tabs, CRLF, the indented multi-line style of the repository's tests, mixed); every opcode name and numeric alias; invalid tokens (odd-length hex, non-hex, unknown OP_ names). Oracle: from_asm_string(variant(to_asm_string(s))) must have the bytes of s; to_asm_string / to_extended_asm_string must equal the reference rendering of the reference token stream; names and aliases must map to their opcode; invalid tokens must be rejected. Non-trivial = an all-digit short push, a boundary-length push, a conditional with an empty or missing branch, or non-canonical whitespace; distinct by hash of the serialised case.".into()
     }
 
     fn assumptions() -> Vec<String> {
